@@ -714,10 +714,18 @@ def history_values(ctx, unit, n, integral=False):
             (rng.choice(FOLLOW) * scale if rng.random() < 0.5 else rng.uniform(-1080.0, 1080.0) * scale) for _ in range(n)]
 
 
-def make_step(ctx, combo, shape, dtype='float64', src=None):
+def make_step(ctx, combo, shape, dtype='float64', src=None, arg_of=None, refill=0, scribble=False):
     name, uname = combo
     st = {'function': name, 'unit': uname}
-    if src is not None:
+    if arg_of is not None:
+        # the caller's own array object of an earlier call, passed again: as it is, or after the caller wrote new values into it
+        # (`refill` of them), and possibly after the caller changed the result of that earlier call in place
+        st['arg_of'] = arg_of
+        if refill:
+            st['new_x_bits'] = [bits(x) for x in history_values(ctx, UNITS[uname], refill)]
+        if scribble:
+            st['caller_changed_result_of'] = arg_of
+    elif src is not None:
         st['input_from'] = src
     elif shape is None:
         st['scalar'] = bits(history_values(ctx, UNITS[uname], 1)[0])
@@ -741,13 +749,29 @@ def histories(ctx, n_random, n_steps):
         other = 'heading_to_yaw' if name == 'yaw_to_heading' else 'yaw_to_heading'
         out.append([make_step(ctx, (name, uname), (5,)), make_step(ctx, (other, uname), None, src=0),
                     make_step(ctx, (name, uname), None, src=1), make_step(ctx, (other, uname), (5,))])
+    # the caller's argument array passed again: unchanged, refilled in place, after the earlier result was edited by the caller;
+    # same function and the other one, same unit and the other one
+    for name, uname in COMBOS:
+        other = 'heading_to_yaw' if name == 'yaw_to_heading' else 'yaw_to_heading'
+        ou = 'rad' if uname == 'deg' else 'deg'
+        out.append([make_step(ctx, (name, uname), (6,)), make_step(ctx, (name, uname), None, arg_of=0, refill=6),
+                    make_step(ctx, (name, uname), None, arg_of=0), make_step(ctx, (name, uname), None, arg_of=0, scribble=True),
+                    make_step(ctx, (other, uname), None, arg_of=0, refill=2), make_step(ctx, (name, ou), None, arg_of=0),
+                    make_step(ctx, (name, uname), None, arg_of=0, refill=1)])
+        out.append([make_step(ctx, (name, uname), (2, 3)), make_step(ctx, (other, uname), (2, 3)),
+                    make_step(ctx, (name, uname), None, arg_of=0, refill=3), make_step(ctx, (other, uname), None, arg_of=1, scribble=True)])
     for _ in range(n_random):
         main = rng.choice(SHAPES)
         steps, arrays = [], []
         for i in range(n_steps):
             combo = rng.choice(COMBOS)
             k = rng.random()
-            if arrays and k < 0.2:
+            fresh = [j for j in arrays if 'x_bits' in steps[j] and steps[j]['dtype'] == 'float64']
+            if fresh and k < 0.12:
+                j = rng.choice(fresh)
+                steps.append(make_step(ctx, combo if rng.random() < 0.3 else (steps[j]['function'], steps[j]['unit']), None, arg_of=j,
+                                       refill=rng.choice([0, 1, 2, int(np.prod(steps[j]['shape']))]), scribble=rng.random() < 0.3))
+            elif arrays and k < 0.2:
                 steps.append(make_step(ctx, combo, None, src=rng.choice(arrays)))
             elif k < 0.3:
                 steps.append(make_step(ctx, combo, None))
@@ -761,7 +785,9 @@ def histories(ctx, n_random, n_steps):
 
 
 def show_step(i, st):
-    what = 'result of call #%d' % (st['input_from'] + 1) if 'input_from' in st else \
+    what = ('the argument array of call #%d%s%s' % (st['arg_of'] + 1, ', refilled in place' if 'new_x_bits' in st else ' again',
+                                                     ', result of that call edited by the caller' if 'caller_changed_result_of' in st else '')) \
+        if 'arg_of' in st else 'result of call #%d' % (st['input_from'] + 1) if 'input_from' in st else \
         repr(from_bits(st['scalar'])) if 'scalar' in st else '<%s array of shape %s>' % (st['dtype'], tuple(st['shape']))
     return 'call #%d %s(%s, deg=%s)' % (i + 1, st['function'], what, UNITS[st['unit']].deg)
 
@@ -798,7 +824,22 @@ def run_history(ctx, steps):
         if 'scalar' in st:
             call(ctx, fs[name], name, from_bits(st['scalar']), unit, replay)
         else:
-            if 'input_from' in st:
+            if 'arg_of' in st:
+                arr = dict(owned).get(st['arg_of'])
+                if arr is None or not arr.flags.writeable:
+                    continue
+                if 'new_x_bits' in st:
+                    flat = arr.reshape(-1)
+                    for q, b in enumerate(st['new_x_bits'][:flat.size]):
+                        flat[(q * 5) % flat.size] = from_bits(b)
+                if 'caller_changed_result_of' in st:
+                    j = st['caller_changed_result_of']
+                    if j in results and results[j].flags.writeable:
+                        held[:] = [h for h in held if h[0] != j]
+                        results[j][...] = -999.25
+                        if not intact(i, 'the caller overwrote the result of call #%d' % (j + 1)):
+                            return
+            elif 'input_from' in st:
                 arr = results.get(st['input_from'])
                 if arr is None:
                     continue
